@@ -31,8 +31,10 @@ RULE = (
 ASSUMPTIONS = [
     "real files in a scratch directory (tmpfs when available), aiofiles and its thread pool unmocked",
     "the legacy layout has no sleeping flag, so legacy equivalence is checked for registries whose nodes are awake",
+    "overlap kind: file operations complete in FIFO order (virtual loop, inline executor) and the registry only grows between the two saves, "
+    "so the later save's text is longer than and written after the earlier one's; overlapping saves of arbitrary registries are not judged",
 ]
-DELETABLE = ("ops",)
+DELETABLE = ("ops", "mid_saves")
 
 SCRATCH_BASE = "/dev/shm" if os.path.isdir("/dev/shm") and os.access("/dev/shm", os.W_OK) else "/var/tmp"
 ODD_TEXT = ("", "åäö", "日本語", "a\tb", "\x00", "x;y", '"quoted"', "back\\slash", " ", "emoji😀", " lead", "{}", "null")
@@ -94,11 +96,19 @@ def _direct_registry(draw) -> dict:
 
 def strategy(tier: str):
     prior = st.sampled_from((None, None, "raw", "through-save"))
+    load_via = st.sampled_from(("own", "own", "explicit"))  # load() of the object's own path, or load(path) of a path given by the caller
     hist = st.fixed_dictionaries(
-        {"kind": st.just("hist"), "version": gen.versions, "ops": st.lists(_lines().map(lambda l: ["rx", l]), min_size=4, max_size=25), "prior_save": prior}
+        {"kind": st.just("hist"), "version": gen.versions, "ops": st.lists(_lines().map(lambda l: ["rx", l]), min_size=4, max_size=25), "prior_save": prior,
+         "load_via": load_via,
+         # the same Persistence object saved earlier states of the registry (scheduled saves); the file may have been removed since
+         "mid_saves": st.one_of(st.just([]), st.lists(st.integers(0, 24), min_size=1, max_size=3, unique=True).map(sorted)),
+         "unlink_after_mid": st.sampled_from((False, False, True)),
+         "final_saves": st.sampled_from((1, 1, 2))}
     )
-    direct = st.fixed_dictionaries({"kind": st.just("direct"), "registry": _direct_registry(), "legacy_nulls": st.booleans(), "prior_save": prior})
-    return st.one_of(hist, hist, direct)
+    direct = st.fixed_dictionaries({"kind": st.just("direct"), "registry": _direct_registry(), "legacy_nulls": st.booleans(), "prior_save": prior, "load_via": load_via,
+                                    "final_saves": st.sampled_from((1, 1, 2)), "unlink_after_mid": st.sampled_from((False, False, True))})
+    overlap = st.fixed_dictionaries({"kind": st.just("overlap"), "registry": _direct_registry(), "head_start": st.integers(0, 8), "grow": st.integers(1, 3)})
+    return gen.weighted((4, hist), (2, direct), (1, overlap))
 
 
 def enumerate_cases(tier: str):
@@ -115,6 +125,20 @@ def enumerate_cases(tier: str):
                         "sleeping": False, "children": {}} for i in range(256 - count, 256)}
         yield {"kind": "direct", "registry": reg, "legacy_nulls": True}
     yield {"kind": "hist", "version": "2.2", "ops": [["rx", f"{i};255;0;0;17;2.2.0\n"] for i in range(0, 256)]}
+    small = {"1": {"node_id": 1, "node_type": 17, "protocol_version": "2.0", "sketch_name": "s", "sketch_version": "1", "battery_level": 5, "heartbeat": 0, "sleeping": False,
+                   "children": {"0": {"child_id": 0, "child_type": 6, "description": "d", "values": {"0": "20.5"}}}},
+             "2": {"node_id": 2, "node_type": 18, "protocol_version": "2.2.0", "sketch_name": "", "sketch_version": "", "battery_level": 0, "heartbeat": 3, "sleeping": True, "children": {}}}
+    for via in ("own", "explicit"):
+        for finals in (1, 2):
+            for unlink in (False, True):
+                yield {"kind": "direct", "registry": small, "legacy_nulls": False, "load_via": via, "final_saves": finals, "unlink_after_mid": unlink}
+                yield {"kind": "hist", "version": "2.1", "ops": [["rx", "1;255;0;0;17;2.1\n"], ["rx", "1;0;0;0;6;t\n"], ["rx", "1;0;1;0;0;20\n"], ["rx", "2;255;0;0;17;2.1\n"]],
+                       "load_via": via, "final_saves": finals, "unlink_after_mid": unlink, "mid_saves": [1, 3]}
+    # a save still in flight (the scheduled one) when the application saves a registry that has grown meanwhile
+    for head_start in range(0, 10):
+        for grow in (1, 2):
+            yield {"kind": "overlap", "registry": small, "head_start": head_start, "grow": grow}
+            yield {"kind": "overlap", "registry": {}, "head_start": head_start, "grow": grow}
     # the same round trip in a process whose locale encoding is ASCII (a service started with LANG=C)
     for text in ("Küche °C", "温度センサー", "emoji😀", "plain"):
         yield {"kind": "locale", "text": text}
@@ -190,10 +214,14 @@ def _legacy(snapshot: dict, nulls: bool) -> dict:
     return out
 
 
-async def _load(path: str) -> tuple[str, object]:
-    gateway = Gateway(env.RecordingTransport(), Config(persistence_file=path))
+async def _load(path: str, via: str = "own") -> tuple[str, object]:
+    own = path if via == "own" else path + ".own-path-of-the-loader"
+    gateway = Gateway(env.RecordingTransport(), Config(persistence_file=own))
     try:
-        await gateway.persistence.load()
+        if via == "own":
+            await gateway.persistence.load()
+        else:
+            await gateway.persistence.load(path)
     except AIOMySensorsError as err:
         return "liberr", err
     except Exception as err:  # noqa: BLE001
@@ -210,9 +238,59 @@ def _interesting(snapshot: dict) -> bool:
     return False
 
 
+def _run_overlap(case: dict) -> Outcome:
+    """Two saves of one Persistence object overlap; the registry only grew in between, so the later save's file is a superset."""
+    from vf.vloop import Deadlock, run_virtual
+
+    scratch = tempfile.mkdtemp(prefix="vf-c13-", dir=SCRATCH_BASE)
+    path = os.path.join(scratch, "persistence.json")
+    classes = ("kind=overlap", f"head-start={min(case['head_start'], 9)}")
+
+    async def go() -> Outcome | None:
+        import asyncio
+
+        gateway = Gateway(env.RecordingTransport(), Config(persistence_file=path))
+        gateway.protocol_version = "2.2"
+        env.install_registry(gateway.nodes, case["registry"])
+        first = asyncio.ensure_future(gateway.persistence.save())
+        for _ in range(case["head_start"]):
+            await asyncio.sleep(0)
+        fresh = [i for i in range(1, 255) if i not in gateway.nodes][: case["grow"]]  # the registry strictly grows: nothing is replaced
+        for extra in fresh:
+            await env.rx(gateway, f"{extra};255;0;0;17;2.2.0\n")
+        want = env.snapshot(gateway.nodes)
+        try:
+            await gateway.persistence.save()  # awaited to completion by the application
+            await first
+        except Exception as err:  # noqa: BLE001
+            return fail(f"overlap:save-raises:{type(err).__name__}", f"{err!r}")
+        status, after = await _load(path)
+        if status != "ok":
+            return fail(f"overlap:load-rejects-saved-file:{type(after).__name__}", f"after two overlapping saves load raised {after!r}")
+        if after != want:
+            from vf.drive import _first_diff
+
+            diff = _first_diff(want, after)
+            return fail(f"overlap:later-save-not-in-file:{diff[0]}", f"save() returned for a registry with nodes {sorted(want)}; the file holds nodes {sorted(after)} (at {diff[1]}: {diff[2]!r} vs {diff[3]!r})")
+        return None
+
+    try:
+        bad, _loop = run_virtual(go)
+    except Deadlock:
+        bad = fail("overlap:deadlock", "overlapping saves never finish")
+    finally:
+        shutil.rmtree(scratch, ignore_errors=True)
+    if bad is not None:
+        bad.classes = classes
+        return bad
+    return Outcome(ok=True, nontrivial=True, classes=classes)
+
+
 def run_case(case: dict) -> Outcome:
     if case["kind"] == "locale":
         return _run_locale(case)
+    if case["kind"] == "overlap":
+        return _run_overlap(case)
     scratch = tempfile.mkdtemp(prefix="vf-c13-", dir=SCRATCH_BASE)
     path = os.path.join(scratch, "persistence.json")
     info = {"boundary": False, "snapshot": {}}
@@ -221,8 +299,14 @@ def run_case(case: dict) -> Outcome:
         gateway = Gateway(env.RecordingTransport(), Config(persistence_file=path))
         if case["kind"] == "hist":
             gateway.protocol_version = case["version"]
-            for op in case["ops"]:
+            mids = set(case.get("mid_saves") or ())
+            for idx, op in enumerate(case["ops"]):
                 await env.rx(gateway, op[1])
+                if idx in mids:
+                    await gateway.persistence.save()
+                    info["mid"] = True
+            if info.get("mid") and case.get("unlink_after_mid") and os.path.exists(path):
+                os.unlink(path)
         else:
             env.install_registry(gateway.nodes, case["registry"])
         if case.get("prior_save"):
@@ -241,9 +325,13 @@ def run_case(case: dict) -> Outcome:
                 info["boundary"] = True
         try:
             await gateway.persistence.save()
+            if case.get("final_saves", 1) > 1:
+                if case["kind"] == "direct" and case.get("unlink_after_mid") and os.path.exists(path):
+                    os.unlink(path)  # saved, file removed by someone, saved again unchanged: the file must be back
+                await gateway.persistence.save()
         except Exception as err:  # noqa: BLE001
             return fail(f"save-raises:{type(err).__name__}", f"save of {before!r} raised {err!r}")
-        status, after = await _load(path)
+        status, after = await _load(path, case.get("load_via", "own"))
         if status != "ok":
             why = "battery-out-of-range" if any(not 0 <= n["battery_level"] <= 100 for n in before.values()) else type(after).__name__
             return fail(f"load-rejects-saved-file:{why}", f"registry {before!r} was saved, load raised {after!r}")
